@@ -492,11 +492,10 @@ type c05Op struct {
 
 func writeC05Reads(t *Toks, h *rtp.Header, extra []uint8) {
 	t.Bool(h.Extension)
-	if h.Extension {
-		t.Nat(int(h.ExtensionProfile))
-	} else {
-		t.Nat(0)
-	}
+	// the RAW profile field, also while X is clear: "a call that returns an error leaves the header
+	// unchanged" includes this exported field (seeds C05-3 / C05-r2-1: a refused first
+	// SetExtension that has already stored the profile it would have chosen)
+	t.Nat(int(h.ExtensionProfile))
 	ids := h.GetExtensionIDs()
 	t.Nat(len(ids))
 	for _, id := range ids {
